@@ -52,3 +52,17 @@ Example ex_stop_blocked :
   stop_region (ctl s) = true /\ step s (TC 0%nat) false = None /\ step s (TC 0%nat) true = None /\
   lock s = Some (TW 0%nat, 1%nat) /\ wpc (ws s 0%nat) = WActInc /\ step s (TW 0%nat) false <> None.
 Proof. cbv zeta. repeat split; try (vm_compute; reflexivity). vm_compute. discriminate. Qed.
+
+(** ... and the hypothesis max_threads = 1 is needed: with two workers the second task can begin first
+    (worker 0 takes task 0, worker 1 takes task 1 and begins it, then worker 0 begins task 0) *)
+Definition ex_two_progs (c : nat) : list op := match c with 0%nat => [OStart] | 1%nat => [OEnqueue; OEnqueue] | _ => [] end.
+Definition ex_two_sched : list (thr * bool) :=
+  repeat (TC 1%nat, false) 40 ++ repeat (TC 0%nat, false) 40 ++ repeat (TW 0%nat, false) 2 ++ repeat (TW 1%nat, false) 8 ++
+  repeat (TW 0%nat, false) 8.
+Example ex_two_workers_not_fifo :
+  start_log (run ex_two_sched (init 2 0 ex_two_progs)) = [0; 1]%nat /\ ~ desc (start_log (run ex_two_sched (init 2 0 ex_two_progs))).
+Proof.
+  split; [vm_compute; reflexivity|]. intros H.
+  assert (E : start_log (run ex_two_sched (init 2 0 ex_two_progs)) = [0; 1]%nat) by (vm_compute; reflexivity).
+  rewrite E in H. destruct H as [H _]. specialize (H 1%nat (or_introl eq_refl)). lia.
+Qed.
